@@ -748,6 +748,7 @@ EGLPNUM_TYPENAME_QSLIB_INTERFACE EGLPNUM_TYPENAME_QSdata *EGLPNUM_TYPENAME_QScop
 	int rval = 0;
 	int j, col, beg, pindex, hit;
 	EGLPNUM_TYPENAME_QSdata *p2 = 0;
+	EGLPNUM_TYPENAME_ILLmatrix *S, *S2;
 	char *coln;
 	char buf[ILL_namebufsize];
 
@@ -817,6 +818,49 @@ EGLPNUM_TYPENAME_QSLIB_INTERFACE EGLPNUM_TYPENAME_QSdata *EGLPNUM_TYPENAME_QScop
 			p2->qslp->intmarker[j] = p->qslp->intmarker[j];
 		}
 	}
+
+	/* the SOS sets of a problem read from an MPS file */
+	if (p->qslp->is_sos_mem != 0)
+	{
+		ILL_SAFE_MALLOC (p2->qslp->is_sos_mem, p2->qslp->structsize, int);
+
+		for (j = 0; j < p->qslp->nstruct; j++)
+		{
+			p2->qslp->is_sos_mem[j] = p->qslp->is_sos_mem[j];
+		}
+	}
+	S = &p->qslp->sos;
+	S2 = &p2->qslp->sos;
+	if (S->matcols > 0)
+	{
+		S2->matval = EGLPNUM_TYPENAME_EGlpNumAllocArray (S->matsize);
+		ILL_SAFE_MALLOC (S2->matind, S->matsize, int);
+		ILL_SAFE_MALLOC (S2->matbeg, S->matcols, int);
+		ILL_SAFE_MALLOC (S2->matcnt, S->matcols, int);
+		ILL_SAFE_MALLOC (p2->qslp->sos_type, S->matcols, char);
+
+		for (j = 0; j < S->matsize; j++)
+		{
+			S2->matind[j] = S->matind[j];
+			EGLPNUM_TYPENAME_EGlpNumCopy (S2->matval[j], S->matval[j]);
+		}
+		for (j = 0; j < S->matcols; j++)
+		{
+			S2->matbeg[j] = S->matbeg[j];
+			S2->matcnt[j] = S->matcnt[j];
+			p2->qslp->sos_type[j] = p->qslp->sos_type[j];
+		}
+		S2->matsize = S->matsize;
+		S2->matcols = S->matcols;
+		S2->matcolsize = S->matcols;
+		S2->matrows = S->matrows;
+		S2->matfree = S->matfree;
+	}
+	if (p->qslp->refrowname != 0)
+	{
+		ILL_UTIL_STR (p2->qslp->refrowname, p->qslp->refrowname);
+	}
+	p2->qslp->refind = p->qslp->refind;
 
 	if (p->qslp->objname != 0)
 	{
